@@ -20,13 +20,15 @@ Inductive sstep :=
 
 Inductive scen :=
 | ScWake | ScWakeSeparate | ScWakeShort | ScClose | ScSockErr
+| ScMulti (k : nat)       (* n readers (any buffer sizes), ONE datagram carrying k messages (any lengths) *)
 | ScDlBefore | ScDlBeforeBoth | ScDlPastBefore
 | ScNoneThenSet | ScSetLater | ScSetEarlier | ScSetZeroSet | ScSetPast | ScCleared.
 
-Inductive oc := OBlocked | OData | OWritten | OAccepted | OTimeout | OTimeoutEarly | OClosed | OSockErr | OOther.
+Inductive oc := OBlocked | OData | OWritten | OAccepted | OTimeout | OTimeoutEarly | OClosed | OSockErr | OOther
+            | OBlockedData.   (* a Read still parked at the end although data is readable *)
 Definition oc_code (o : oc) : nat :=
   match o with OBlocked => 0 | OData => 1 | OWritten => 2 | OAccepted => 3 | OTimeout => 4
-             | OTimeoutEarly => 5 | OClosed => 6 | OSockErr => 7 | OOther => 8 end.
+             | OTimeoutEarly => 5 | OClosed => 6 | OSockErr => 7 | OOther => 8 | OBlockedData => 9 end.
 
 Section Scen.
 Variable prog : proc -> list stmt.
@@ -71,7 +73,7 @@ Definition sstep_run (n : nat) (sts : list state) (x : sstep) : list state :=
   | SMarkEarly => dedup (map mark_early sts)
   end.
 
-Definition outcome_of (t : thread) : oc :=
+Definition outcome_of (s : shared) (t : thread) : oc :=
   match pc t with
   | PDone RData _ => OData
   | PDone RWritten _ => OWritten
@@ -81,7 +83,7 @@ Definition outcome_of (t : thread) : oc :=
   | PDone RClosed _ => OClosed
   | PDone RSockErr _ => OSockErr
   | PDone _ _ | PFail _ => OOther
-  | PEntry | PAt _ => OBlocked
+  | PEntry | PAt _ => match fn t with FRead => if has_data s then OBlockedData else OBlocked | _ => OBlocked end
   end.
 
 Fixpoint insert_code (x : nat) (l : list nat) : list nat :=
@@ -89,7 +91,7 @@ Fixpoint insert_code (x : nat) (l : list nat) : list nat :=
 Definition sort_codes (l : list nat) : list nat := fold_right insert_code [] l.
 
 Definition outcome (st : state) : list nat :=
-  if Nat.eqb (bad st) 0 then sort_codes (map (fun t => oc_code (outcome_of t)) (ths st)) else [99].
+  if Nat.eqb (bad st) 0 then sort_codes (map (fun t => oc_code (outcome_of (sh st) t)) (ths st)) else [99].
 
 Definition dedup_nats (l : list (list nat)) : list (list nat) :=
   fold_right (fun s acc => if existsb (list_beq nat Nat.eqb s) acc then acc else s :: acc) [] l.
@@ -119,6 +121,7 @@ Definition script (c : caller) (s : scen) (n : nat) : list sstep :=
   | ScWake => SSettle :: wake_steps c n
   | ScWakeSeparate => SSettle :: flat_map (fun _ => [SEnv (LInput 1 false); SSettle]) (seq 0 n)
   | ScWakeShort => [SSettle; SEnv (LInput 1 false); SSettle]
+  | ScMulti k => [SSettle; SEnv (LInput k false); SSettle]
   | ScClose => [SSettle; SEnv (close_label c); SSettle]
   | ScSockErr => [SSettle; SEnv (err_label c); SSettle]
   | ScDlBefore => [set DFuture; SSettle; SMarkEarly; tick; SSettle]
